@@ -43,18 +43,30 @@ class Seq:
                 out["corpus_cases"] += r.cases
             out["traces_validated"] += r.cases - len(r.k_bad)
             for kind, lst in (("k", r.k_bad), ("f", r.f_bad)):
-                for bad in lst[:3]:   # shrink at most 3 per kind and run
-                    small = shrink(self.suite, bad, kind, self.pm, self.ps, seqdiff, os.path.join(wd, "shrink"))
-                    item = {"component": self.name, "suite": self.suite, "kind": "spec-violation" if kind == "f" else "correspondence",
-                            "source": label, "case": small["header"], "ops": small["ops"], "first_bad_op": small["idx"],
-                            "real": small.get("real"), "model_and_spec": small.get("model_and_spec"), "seed": ctx.seed}
-                    if self.signature:
-                        item["signature"] = self.signature(item)
-                    out[kind + "_bad"].append(item)
+                # group by known-finding signature so that a listed finding cannot hide an unlisted violation
+                groups = {}
+                for bad in lst:
+                    sig = self.signature(bad.get("spec", "")) if (self.signature and kind == "f") else None
+                    groups.setdefault(sig, []).append(bad)
+                for sig, items in groups.items():
+                    for bad in items[:2]:   # shrink at most 2 per group
+                        small = shrink(self.suite, bad, kind, self.pm, self.ps, seqdiff, os.path.join(wd, "shrink"))
+                        item = {"component": self.name, "suite": self.suite, "kind": "spec-violation" if kind == "f" else "correspondence",
+                                "source": label, "case": small["header"], "ops": small["ops"], "first_bad_op": small["idx"],
+                                "real": small.get("real"), "model_and_spec": small.get("model_and_spec"), "seed": ctx.seed}
+                        if kind == "f":
+                            ms = item.get("model_and_spec") or []
+                            i = item.get("first_bad_op")
+                            spec = ms[i].split("\t")[1] if (i is not None and i < len(ms) and "\t" in ms[i]) else ""
+                            item["signature"] = self.signature(spec) if self.signature else None
+                        out[kind + "_bad"].append(item)
                 out[kind + "_bad_total"] = out.get(kind + "_bad_total", 0) + len(lst)
         shutil.rmtree(os.path.join(wd, "shrink"), ignore_errors=True)
         return out
-    def replay(self, item, ctx):
+    def replay(self, item, ctx, quiet=False):
+        import sys
+        def print(*a):   # known-finding replays must not pollute stdout
+            __builtins__["print"](*a, file=sys.stderr if quiet else sys.stdout) if isinstance(__builtins__, dict) else __import__("builtins").print(*a, file=sys.stderr if quiet else sys.stdout)
         seqdiff = go_build("seqdiff")
         k, f, real, ms = eval_case(self.suite, item["case"], item["ops"], self.pm, self.ps, seqdiff, os.path.join(ctx.workdir, "replay"))
         print("case", item["case"])
